@@ -38,8 +38,18 @@ func (p *MapToTags) Run() {
 	defer p.CloseAllOutPorts()
 	for ip := range p.In().Chan {
 		newTags := p.mapFunc(ip)
-		ip.AddTags(newTags)
-		ip.WriteAuditLogToFile()
-		p.Out().Send(ip)
+		// The incoming IP might also have been sent to other processes
+		// connected to the same out-port, which can be reading its tags and
+		// audit info at any time, so the tags are not added to the incoming IP
+		// itself, but to a new IP for the same file (which gets its own copy of
+		// the audit info, loaded from the audit file of the incoming IP)
+		taggedIP, err := scipipe.NewFileIP(ip.Path())
+		if err != nil {
+			p.Fail(err)
+		}
+		taggedIP.AddTags(ip.Tags())
+		taggedIP.AddTags(newTags)
+		taggedIP.WriteAuditLogToFile()
+		p.Out().Send(taggedIP)
 	}
 }
